@@ -20,9 +20,11 @@ composition that looks inside the watermark model.
 
 What the configuration must provide (`SnapCfg.Good`): `wm.beginOrder = countThenPublish`,
 `oracle.commitLocked` (the mutex spans `nextTxnTs.Add` and `txnMark.Begin`), `txn.doneAfterApply`,
-`oracle.readWaits`.  The *formula* of the read timestamp (`nextTxnTs-1`, clamped by
+`oracle.readWaits`, and — for a REOPENED database, whose states are initial states of the system
+(`seededSt`) — `oracle.markSeed` (`initCommitState` seeds `txnMark` with the recovered version, so
+that the first commit timestamp of the session is not done: `Inv.init`).  The *formula* of the read timestamp (`nextTxnTs-1`, clamped by
 `txnMark.LastIndex()`, computed without the mutex) is NOT needed: whatever `readTs` is, the wait
-makes the snapshot at `readTs` complete and immutable.  Each of the four facts is necessary: a
+makes the snapshot at `readTs` complete and immutable.  Each of the five facts is necessary: a
 reachable violation is proved for each (`C05_fails_asis_*`).
 
 Not covered here (named so that the level note can say it):
@@ -87,19 +89,18 @@ theorem C05_stable_reads (c : SnapCfg) (hc : c.Good) (s : St) (hr : Reachable (s
       · -- inside txnMark.Begin(ts): before the publish, lastIndex < ts; after the count, counted
         exfalso
         by_cases hst : wt.stage ≤ 2
-        · have := WM.begin_unpublished c.wm hc.1 s.tm h.tmR w wt _ hw hk hst
-          have h2 := WM.du_le_last c.wm hc.1 s.tm h.tmR
+        · have := WM.begin_unpublished s.tm h.tmR w wt _ hw hk hst
+          have h2 := WM.du_le_last s.tm h.tmR
           omega
-        · exact above hpend (WM.begun_counted c.wm hc.1 s.tm h.tmR w wt _ hw hk (by omega))
+        · exact above hpend (WM.begun_counted s.tm h.tmR w wt _ hw hk (by omega))
       · exact hall
 
-/-- Every commit timestamp ever handed out belongs to a transaction of the system (so
-`C05_stable_reads` speaks about *every* assigned timestamp), and distinct transactions have
-distinct commit timestamps. -/
-theorem C05_every_ts_owned (c : SnapCfg) (hc : c.Good) (s : St) (hr : Reachable (sys c) s) :
-    (∀ ts, 1 ≤ ts → ts < s.nextTs → ∃ ct C, s.thr ct = some C ∧ C.commitTs = ts) ∧
-    (∀ a b A B, s.thr a = some A → s.thr b = some B → A.commitTs ≠ 0 → A.commitTs = B.commitTs → a = b) :=
-  ⟨(Inv.reachable hc s hr).owned, (Inv.reachable hc s hr).uniq⟩
+/-- Distinct transactions have distinct commit timestamps (a commit timestamp identifies its
+transaction), and every commit timestamp handed out lies below `nextTxnTs`. -/
+theorem C05_ts_unique (c : SnapCfg) (hc : c.Good) (s : St) (hr : Reachable (sys c) s) :
+    (∀ a b A B, s.thr a = some A → s.thr b = some B → A.commitTs ≠ 0 → A.commitTs = B.commitTs → a = b) ∧
+    (∀ a A, s.thr a = some A → A.commitTs < s.nextTs) :=
+  ⟨(Inv.reachable hc s hr).uniq, (Inv.reachable hc s hr).tsLt⟩
 
 /-- **The snapshot does not move.**  From any reachable state, no step of any thread — a commit
 entering or leaving any phase, the application of an entry, a watermark micro-step, another
@@ -167,9 +168,9 @@ def Violated (c : SnapCfg) : Prop :=
   ∃ s, Reachable (sys c) s ∧ ∃ rt R ct C, s.thr rt = some R ∧ R.began = true ∧ s.thr ct = some C ∧
     C.commitTs ≠ 0 ∧ C.commitTs ≤ R.readTs ∧ ∃ kv, kv ∈ C.writes ∧ entryOf kv C.commitTs ∉ s.store
 
-theorem violated_of (c : SnapCfg) (acts : List Act) (rt ct : Nat)
-    (h : violates (run (sys c) initSt acts) rt ct = true) : Violated c := by
-  refine ⟨run (sys c) initSt acts, run_reachable _ _ (.init rfl) _, ?_⟩
+theorem violated_from (c : SnapCfg) (s0 : St) (h0 : (sys c).init s0) (acts : List Act) (rt ct : Nat)
+    (h : violates (run (sys c) s0 acts) rt ct = true) : Violated c := by
+  refine ⟨run (sys c) s0 acts, run_reachable _ _ (.init h0) _, ?_⟩
   unfold violates at h
   split at h
   · rename_i R C hR hC
@@ -178,6 +179,10 @@ theorem violated_of (c : SnapCfg) (acts : List Act) (rt ct : Nat)
     obtain ⟨⟨⟨h1, h2⟩, h3⟩, kv, h4, h5⟩ := h
     exact ⟨rt, R, ct, C, hR, h1, hC, h2, h3, kv, h4, by simpa using h5⟩
   · cases h
+
+theorem violated_of (c : SnapCfg) (acts : List Act) (rt ct : Nat)
+    (h : violates (run (sys c) initSt acts) rt ct = true) : Violated c :=
+  violated_from c initSt ⟨0, [], rfl, fun _ h => by cases h⟩ acts rt ct h
 
 def rep (a : Act) : Nat → List Act
   | 0 => []
@@ -234,6 +239,28 @@ theorem C05_fails_asis_no_wait (c : SnapCfg) (hc : c = { SnapCfg.good with readW
     Violated c := by
   subst hc
   exact violated_of _ witnessNoWait 2 0 (by decide)
+
+/-- **`initCommitState` seeding `txnMark` one too high** (the recovered version + 1 instead of the
+recovered version).  Reopen with recovered version 1: the mark already stands at 2.  The first commit
+of the session takes timestamp 2 and is preempted inside `txnMark.Begin(2)`; a reader takes read
+timestamp 2 and `WaitForMark(2)` returns at once, while commit 2 has written nothing. -/
+def reopened1 (c : SnapCfg) : St := seededSt c 1 [{ key := k1, ts := 1, val := some [1] }]
+
+def witnessSeed : List Act :=
+  [.spawn 0 true] ++ rep (.run 0) 40 ++ [.set 0 k1 (some [2]), .commit 0] ++ rep (.run 0) 9 ++
+  [.spawn 2 false] ++ rep (.run 2) 40
+
+theorem C05_fails_asis_markseed (c : SnapCfg) (hc : c = { SnapCfg.good with seedOff := 1 }) : Violated c := by
+  subst hc
+  exact violated_from _ (reopened1 _) ⟨1, _, rfl, fun e he => by simp at he; subst he; exact Nat.le_refl _⟩
+    witnessSeed 2 0 (by decide)
+
+/-- with the marks seeded at the recovered version itself the same schedule gives the reader read
+timestamp 1: the first commit of the session is not its business -/
+example :
+    ((run (sys SnapCfg.good) (reopened1 SnapCfg.good) witnessSeed).thr 2).map (fun t => (t.readTs, t.began)) =
+      some (1, true) := by
+  decide
 
 /-! ### non-vacuity -/
 
